@@ -110,6 +110,18 @@ MIME_SUPPORT_MAP = {'text/html': 'html',
 DEFAULT_MIME = 'text/plain'
 
 
+def _encodable(text, charset='utf-8'):
+    # text that cannot be encoded (e.g., an exception message with an
+    # unpaired surrogate) must not keep the error from being sent
+    if isinstance(text, bytes):
+        return text
+    try:
+        text.encode(charset)
+    except UnicodeEncodeError:
+        text = text.encode(charset, 'backslashreplace').decode(charset)
+    return text
+
+
 class HTTPException(BaseResponse, Exception):
     """The base :class:`Exception` for all default HTTP errors in this
     module, the HTTPException also inherits from
@@ -161,7 +173,7 @@ class HTTPException(BaseResponse, Exception):
         headers = kwargs.pop('headers', None)
         mimetype = kwargs.pop('mimetype', DEFAULT_MIME)
         content_type = kwargs.pop('content_type', None)
-        super(HTTPException, self).__init__(response=self.to_text(),
+        super(HTTPException, self).__init__(response=_encodable(self.to_text()),
                                             status=self.code,
                                             headers=headers,
                                             mimetype=DEFAULT_MIME,
@@ -176,7 +188,7 @@ class HTTPException(BaseResponse, Exception):
         except KeyError:
             fmt_name, mimetype = 'text', 'text/plain'
         _method = getattr(self, 'to_' + fmt_name)
-        self.data = _method()
+        self.data = _encodable(_method())
         self.headers['Content-Type'] = get_content_type(mimetype, self.charset)
 
     def transcribe(self, request):
